@@ -3,11 +3,12 @@
    ExtrOcamlNativeString: [byte] -> OCaml [char] (256 constructors, listed in the stock file),
    [string] -> OCaml [string]. N/Z/positive/nat stay Coq's inductive types. *)
 From Coq Require Import Extraction ExtrOcamlBasic ExtrOcamlNativeString.
-From NfpmV Require Import Lib.Bytes Model.Path Model.Content Model.Prepare Model.Payload Spec.C05 Spec.C01 Spec.C08 Spec.C09.
+From NfpmV Require Import Lib.Bytes Model.Path Model.Content Model.Prepare Model.Payload Spec.C05 Spec.C01 Spec.C08 Spec.C09 Spec.C03 Spec.C04.
 From NfpmV Require Import Gen.FsPaths.
 Extraction Language OCaml.
 Extraction "model.ml"
   norm_file norm_dir as_rel as_explicit_rel to_nix ancestor_dirs
   prep check_C05 holds_C05 oracle_okb owned_paths
   payload_of check_C01 holds_C01 envelope_C01 lookup_hash tzero fi_empty
-  check_C08 conffiles_model backups_model check_C09 model_scripts expected_scripts render_install sort_slots.
+  check_C08 conffiles_model backups_model check_C09 model_scripts expected_scripts render_install sort_slots
+  check_C03 check_C04 check_names.
